@@ -441,7 +441,7 @@ func (in *Interp) convert(fr *frame, from, to types.Type, x Value, instr ssa.Ins
 		if _, ok := ut.(*types.Slice); ok {
 			return v
 		}
-	case NilLoc, *Cell, *StructLoc, *ArrayLoc, *ByteObj, BytePtr:
+	case NilLoc, *Cell, *StructLoc, *ArrayLoc, *ByteObj, BytePtr, ByteView:
 		if _, ok := ut.(*types.Pointer); ok {
 			return v
 		}
@@ -463,10 +463,7 @@ func (in *Interp) sliceToArrayPointer(fr *frame, instr *ssa.SliceToArrayPointer)
 		if n == 0 {
 			return &ByteObj{id: nextID(), arr: arrZero, cap: I64(0)}
 		}
-		// A pointer into the middle of an object: represent as a view object is
-		// not possible with shared storage; supported only for reads via copy-out
-		// when offset is concrete zero and cap matches.
-		panic(unsupported("slice to array pointer on byte slice"))
+		return ByteView{obj: s.obj, off: s.off, n: int(n)}
 	}
 	panic(unsupported(fmt.Sprintf("SliceToArrayPointer on %T", x)))
 }
@@ -481,10 +478,6 @@ func (in *Interp) makeSlice(fr *frame, instr *ssa.MakeSlice) Value {
 	in.check(fr, And(Sge(l, I64(0)), Sle(l, c)), "makeslice: len out of range", instr)
 	if !c.IsConst() || !l.IsConst() {
 		// concretise a symbolic length of a non-byte slice by enumeration
-		hi := c.hi
-		if hi > 64 {
-			panic(unsupported(fmt.Sprintf("make of non-byte slice with symbolic length (hi=%d)", hi)))
-		}
 		lv := in.concretize(fr, l, instr)
 		cv := in.concretize(fr, c, instr)
 		l, c = I64(int64(lv)), I64(int64(cv))
@@ -508,12 +501,22 @@ func (in *Interp) concretize(fr *frame, t *Term, instr ssa.Instruction) uint64 {
 	if fr != nil && instr != nil {
 		site = "concretize:" + fr.site(instr)
 	}
-	for v := t.lo; v < t.hi; v++ {
+	if t.hi-t.lo <= 16 {
+		for v := t.lo; v < t.hi; v++ {
+			if in.e.Branch(Eq(t, BV(v, t.w)), site) {
+				return v
+			}
+		}
+		return t.hi
+	}
+	// unknown range: enumerate feasible values with the solver's help
+	for i := 0; i < in.e.unwind; i++ {
+		v := in.e.PickValue(t, site)
 		if in.e.Branch(Eq(t, BV(v, t.w)), site) {
 			return v
 		}
 	}
-	return t.hi
+	panic(pathEnd{"unwind", "more than unwind feasible values at " + site})
 }
 
 const maxAllocGo = uint64(1) << 47
@@ -621,6 +624,15 @@ func (in *Interp) slice(fr *frame, instr *ssa.Slice) Value {
 			in.check(fr, And(Ule(lo, hi), Ule(hi, s.cap)), "slice bounds out of range", instr)
 		}
 		return BSlice{obj: s, off: lo, len: Sub(hi, lo), cap: Sub(cp, lo)}
+	case ByteView:
+		if lo == nil {
+			lo = I64(0)
+		}
+		if hi == nil {
+			hi = I64(int64(s.n))
+		}
+		in.check(fr, And(Ule(lo, hi), Ule(hi, I64(int64(s.n)))), "slice bounds out of range", instr)
+		return BSlice{obj: s.obj, off: Add(s.off, lo), len: Sub(hi, lo), cap: Sub(I64(int64(s.n)), lo)}
 	case *ArrayLoc:
 		l, h, m := 0, len(s.elems), len(s.elems)
 		if lo != nil {
@@ -658,6 +670,9 @@ func (in *Interp) indexAddr(fr *frame, instr *ssa.IndexAddr) Value {
 	case *ByteObj:
 		in.check(fr, Ult(idx, s.cap), "index out of range", instr)
 		return BytePtr{obj: s, idx: idx}
+	case ByteView:
+		in.check(fr, Ult(idx, I64(int64(s.n))), "index out of range", instr)
+		return BytePtr{obj: s.obj, idx: Add(s.off, idx)}
 	case *ArrayLoc:
 		i := in.concretizeIdx(fr, idx, len(s.elems), instr)
 		return s.elems[i]
